@@ -46,7 +46,7 @@ func draw(t *rapid.T) BoundCase {
 			opts = sim.NetOpts{MaxForkHeight: rapid.SampledFrom([]int{3, 6}).Draw(t, "forkSpan")}
 		}
 	}
-	g := sim.NewGen(t, sim.GenOpts{Net: opts, Profile: sim.Profile{MaxTxns: 3}})
+	g := sim.NewGen(t, sim.GenOpts{Net: opts, Profile: sim.Profile{MaxTxns: 3}, NoScenarios: true})
 	net := g.C.Net
 	// prefix: bring the chain to where the rule can be exercised
 	prefix := rapid.IntRange(1, 6).Draw(t, "prefix")
